@@ -6,6 +6,7 @@
 import PtModel.Sexp
 import PtModel.Lower
 import PtModel.Pad
+import PtModel.EinsumLower
 import PtModel.Spec
 import PtModel.Affine
 import PtModel.Names
@@ -44,6 +45,17 @@ def parseArr (shp vals : Sx) : Option (Arr Val) := do
 
 def showArr (a : Arr Val) : String := s!"{showNats a.shape} {showVals a.toList}"
 
+/-- an einsum index list `(i j k)` -/
+def parseLetters : Sx → Option (List Char)
+  | .list xs => xs.mapM fun
+    | .atom a => a.toList.head?
+    | _ => none
+  | _ => none
+
+def showEAxis : EAxis → String
+  | .elem k => s!"e{k}"
+  | .red k => s!"r{k}"
+
 def handleLower : List Sx → Option String
   | [.atom "roll", shift, axis, nd, n] => do
     some (Lower.roll (← shift.asInt?) (← axis.asNat?) (← nd.asNat?) (← n.asNat?)).toSx.toStr
@@ -58,6 +70,14 @@ def handleLower : List Sx → Option String
     match Lower.reshape (← parseOrder o) (← old.asNats?) (← new.asNats?) with
     | some e => some e.toSx.toStr
     | none => some "none"
+  | [.atom "einsum", .list ins, out, .list shapes] => do
+    -- (lower einsum ((i j) (j k)) (i k) ((2 3) (3 4))): the expression
+    let d := Lower.einsumDescrs (← ins.mapM parseLetters) (← parseLetters out)
+    some (Lower.einsum d (← shapes.mapM Sx.asNats?)).toSx.toStr
+  | [.atom "einsumdescrs", .list ins, out] => do
+    -- the access descriptors `pt.einsum` builds: `e<k>` output axis, `r<k>` reduction axis
+    let d := Lower.einsumDescrs (← ins.mapM parseLetters) (← parseLetters out)
+    some ("(" ++ " ".intercalate (d.map fun a => "(" ++ " ".intercalate (a.map showEAxis) ++ ")") ++ ")")
   | [.atom "pad", .list lens, .list widths, .list cvals] => do
     -- lens: axis lengths, `?` for a symbolic one; widths: ((before after)…); cvals: ((c0 c1)…)
     let ls ← lens.mapM fun
@@ -97,6 +117,13 @@ def handleSpec : List Sx → Option String
     some (showArr (Spec.concatenate (← axis.asNat?) as .undef))
   | [.atom "basic", .list ix, shp, vals] => do
     some (showArr (Spec.basicIndex (← ix.mapM parseBIdx) (← parseArr shp vals)))
+  | [.atom "einsum", .list ins, out, .list arrs] => do
+    let o ← parseLetters out
+    let d := Lower.einsumDescrs (← ins.mapM parseLetters) o
+    let as ← arrs.mapM fun
+      | .list [shp, vals] => parseArr shp vals
+      | _ => none
+    some (showArr (Spec.einsumV d o.length as))
   | [.atom "pad", .list widths, .list cvals, shp, vals] => do
     let ws ← widths.mapM fun
       | .list [b, a] => do some (← b.asNat?, ← a.asNat?)
